@@ -45,7 +45,9 @@ META = {
                     "GitBranch config starts without remote/branch sections (fresh repository)"],
     "rule": ("exhaustive byte strings up to the tier's length over alphabets containing every escape character for each "
              "codec; structured ref/branch names; git URLs from a grammar (schemes, rsync style, user/host/port/path with "
-             "escapes, commas) x branch/ref names with ',', '=', '%', space, unicode; non-trivial = contains an escape "
+             "escapes, commas) x branch/ref names with ',', '=', '%', space, unicode and already-escaped-looking text "
+             "(%20 %25 %2C %3D %2F %41 %% %zz trailing %; _c _s __ for file ids; %3A in revision ids) in every kind incl. "
+             "set_parent/get_parent on real git branches; non-trivial = contains an escape "
              "character / non-ASCII byte / segment parameter"),
 }
 SHARD = 250
@@ -119,6 +121,15 @@ BRANCHES = [None, "", "x", "main", "a b", "a,b=c%\u00e9", "refs/heads/x", "refs/
 REFS = [None, b"", b"HEAD", b"refs/heads/x", b"refs/heads/", b"refs/tags/v1", b"refs/heads/\xff", b"refs/heads/\xc3\xa9",
         b"refs/heads/refs/y", b"refs/x y~._-", b"refs/pull/1/head", b"a,b=c", b"%41", b"\xff\x00", b"refs/tags/a ",
         b"refs/heads/a/", b"x/"]
+# values that look already escaped: the double-decoding / double-encoding class
+ESCNAMES = ["rel%20notes", "a%25b", "%2C", "x%3Dy", "a%2Fb", "%41", "%%", "100%", "50%off", "%zz", "a%2520b", "%C3%A9", "%",
+            "%2", "%2%20", "a__b_sc", "a+b", "%e9", "%00", "\u00e9%20"]
+BRANCHES += ESCNAMES
+REFS += ([b"refs/tags/" + n.encode("utf-8") for n in ESCNAMES] + [b"refs/heads/" + n.encode("utf-8") for n in ESCNAMES]
+         + [b"refs/%2F", b"%2520", b"refs/heads/%FF"])
+URLS_FIXED += ["git://h/a%2520b", "git://h/a%25b/%2C", "https://h/%%/r%", "git://h/r%2Cx", "ssh://h/a%2520b", "u@h:a%20b",
+               "u@h:a%2520b/%zz", "git://h/r%3Dx%2F"]
+ESCTOK = [b"_c", b"_s", b"__", b"_", b" ", b"\x0c", b"%20", b"%5F", b"a", b"s", b"c"]
 BACK_FIXED = [
     "git://h/r,branch=\u00e9", "git://h/r,branch=%e9", "git://h/r,branch=%C3%A9,branch=x", "git://h/r,x",
     "git://h/r, branch = a%20 ,ref=\u00a0%zz%4\u2003", "git://h/r,ref=\u00e9%", "git://h/r/,ref=a/", "git://h/r,ref=a/",
@@ -128,6 +139,9 @@ BACK_FIXED = [
     "git://h/r,ref=x,branch=y", "git://h/r,branch=y,ref=x", "git://h/r,ref=x,ref=y", "git://h/a,ref=x/b", "a/,ref=x",
     "/,ref=x", "//,ref=x/", "git:///,ref=x/", "git://,ref=x/", "g://h/,ref=x", "g:/,ref=x/", "gi:/a/,ref=x/",
     "git://h/r,ref=x\u2003", "git://h/r,\u3000ref\u1680=x", ",ref=x", "", "/", ",", "=", ",=", "git://h/r,branch=", "git://h/r,branch=%",
+    "git://h/r,branch=rel%2520notes", "git://h/r,branch=rel%20notes", "git://h/r,ref=refs%2Ftags%2Fa%2520b", "git://h/r,branch=%2525",
+    "git://h/r,branch=%252C", "git://h/r,branch=a%253Db", "git://h/r,ref=%2541", "git://h/r,branch=100%25", "git://h/r,branch=%25%25",
+    "git://h/r,branch=%25zz", "git://h/a%2520b,branch=x%2520y", "git://h/r,branch=%25C3%25A9",
 ]
 
 
@@ -152,6 +166,8 @@ def corpus():
         {"kind": "url", "loc": cps("git://h/r"), "branch": cps("a b"), "ref": None},
         {"kind": "parent", "name": "foo", "loc": cps("git://h/r,branch=b")},               # C36-parent-branch-section
         {"kind": "parent", "name": "origin", "loc": cps("git://h/r,branch=b")},
+        {"kind": "parent", "name": "foo", "loc": cps("git://h/r,branch=rel%2520notes")},   # seeded double-decode in set_parent
+        {"kind": "url", "loc": cps("git://h/r"), "branch": cps("rel%20notes"), "ref": None},
     ]
     return out
 
@@ -161,6 +177,8 @@ def cases(rng, tier):
     # 1 file-id escaping: every escape character + the letters that follow "_"
     for t in _words([95, 32, 12, 115, 99, 97, 255], 4 if quick else 5):
         yield {"kind": "escape", "x": bytes(t)}
+    for t in _words(ESCTOK, 3):
+        yield {"kind": "escape", "x": b"".join(t)}
     # 2 UTF-8 surrogateescape: lead bytes of every class, boundary continuation bytes
     alpha8 = [0x41, 0x80, 0xBF, 0xC1, 0xC2, 0xE0, 0xED, 0xA0, 0x9F, 0xF0, 0xF4, 0x90, 0x8F, 0xF5]
     for t in _words(alpha8, 3):
@@ -182,12 +200,18 @@ def cases(rng, tier):
     for x in (b"TREE_ROOT", b"git:", b"git:a_sb", b"git:_", b"git:_x", b"git:\xff_c", b"git", b"gitx:a", b"TREE_ROOTx",
               b"git:TREE_ROOT", b"git:a b"):
         yield {"kind": "fileid", "x": x}
+    for t in _words(ESCTOK[:8], 2 if quick else 3):
+        yield {"kind": "fileid", "x": b"".join(t)}
+        yield {"kind": "fileid", "x": b"git:" + b"".join(t)}          # parse_file_id of escaped-looking raw ids
+        yield {"kind": "fileid_str", "s": cps(b"".join(t).decode("latin-1"))}
     for t in _words([0x41, 0x20, 0x5F, 0xE9, 0xDCC3, 0xDCA9, 0xDCFF, 0xD800], 2 if quick else 3):
         yield {"kind": "fileid_str", "s": list(t)}
     # 4 revision ids
     pool = [ZERO, SHA1, b"git-v1:" + SHA1, b"git-experimental:" + SHA1, b"git-v1:" + ZERO, b"git-experimental:" + ZERO,
             b"git-foo:abc", b"git-v1", b"git-", b"git", b"null:", b"", b"git-v1:ab:cd", b"hg-v1:abc", b"git-v1:",
-            b"git-v10:x", b"git-v1x", b":", b"git-:x", ZERO[:-1], ZERO + b"0", b"ab:cd", b"git-experimental", b"git-v1::"]
+            b"git-v10:x", b"git-v1x", b":", b"git-:x", ZERO[:-1], ZERO + b"0", b"ab:cd", b"git-experimental", b"git-v1::",
+            b"git-v1%3A" + SHA1, b"git-v1:%3A" + SHA1, b"git%2Dv1:" + SHA1, b"git-v1:" + SHA1[:38] + b"%4", b"git-v1:%30" + ZERO[:39],
+            b"%30" + ZERO[:39], b"git-v1:git-v1:" + SHA1, b"null%3A", b"git-v1:null:", SHA1[:37] + b"%41", b"git-v1:a_sb__c"]
     for x in pool:
         for exp in (False, True):
             yield {"kind": "revid", "exp": exp, "x": x}
@@ -201,8 +225,14 @@ def cases(rng, tier):
     for pre in ("", "refs/", "refs/heads/", "refs/tags/", "refs", "ref/", "HEAD", "heads/", "Refs/"):
         for t in tails:
             yield {"kind": "refname", "s": cps(pre + t)}
+    for pre in ("", "refs/", "refs/heads/", "refs%2F", "refs%2Fheads%2F", "HEAD%00"):
+        for n in ESCNAMES:
+            yield {"kind": "refname", "s": cps(pre + n)}
     for s in ([0xDC80], [97, 0xD800], cps("refs/") + [0xDFFF]):
         yield {"kind": "refname", "s": s}
+    for pre in (b"", b"refs/heads/", b"refs/tags/", b"refs%2Fheads%2F", b"refs/heads%2F", b"HEAD%00", b"refs/heads/refs%2F"):
+        for n in ESCNAMES:
+            yield {"kind": "ref", "x": pre + n.encode("utf-8")}
     btails = [bytes(t) for t in _words([97, 47, 0xC3, 0xA9, 0xFF], 3 if quick else 4)]
     for pre in (b"", b"HEAD", b"refs/heads/", b"refs/tags/", b"refs/heads/refs/", b"refs/remotes/o/", b"refs/head/", b"refs/"):
         for t in btails:
@@ -231,10 +261,20 @@ def cases(rng, tier):
         for name in names:
             yield {"kind": "parent", "name": name, "loc": cps(loc)}
             k += 1
+    import breezy.git  # noqa
+    from breezy.git.urls import git_url_to_bzr_url
+    for n in ESCNAMES:
+        for kw in ({"branch": n}, {"ref": b"refs/tags/" + n.encode("utf-8")}, {"ref": b"refs/heads/" + n.encode("utf-8")},
+                   {"ref": n.encode("utf-8")}):
+            loc = git_url_to_bzr_url(rng.choice(["git://h/r", "https://h/a%2520b/r.git", "git+ssh://u@h/~u/%25"]), **kw)
+            yield {"kind": "parent", "name": names[k % 3], "loc": cps(loc)}
+            k += 1
+    for loc in ["git://h/r,branch=rel%2520notes", "git://h/r,branch=rel%20notes", "git://h/r,branch=%2541", "git://h/r,ref=%2541",
+                "git://h/r,branch=%25", "git://h/r,branch=%", "git://h/r,branch=%zz", "git://h/r,ref=refs%2Fheads%2Fa%2520b"]:
+        yield {"kind": "parent", "name": names[k % 3], "loc": cps(loc)}
+        k += 1
     for _ in range(30 if quick else 300):
         c = _rand_url(rng)
-        import breezy.git  # noqa
-        from breezy.git.urls import git_url_to_bzr_url
         try:
             loc = git_url_to_bzr_url(ustr(c["loc"]), None if c["branch"] is None else ustr(c["branch"]), c["ref"])
         except Exception:
@@ -244,14 +284,15 @@ def cases(rng, tier):
         yield {"kind": "parent", "name": rng.choice(names), "loc": cps(loc)}
 
 
-SEG = ["r", "repo.git", "a%20b", "~u", "x,y", "x,k=v", "%7Eu", "\u00e9", "a b", "%2C", "", "a=b", "A", "-._", "%zz", "p q,r=s "]
+SEG = ["a%2520b", "a%25b", "%%", "x%", "%3D", "%2F", "%41", "r", "repo.git", "a%20b", "~u", "x,y", "x,k=v", "%7Eu", "\u00e9", "a b", "%2C", "", "a=b", "A", "-._", "%zz", "p q,r=s "]
 HOSTS = ["h", "example.com", "[::1]", "h%41", "H"]
 USERS = ["", "u@", "u:pw@", "u%40v@", "@"]
 PORTS = ["", ":22", ":", ":8080", ":0"]
 SCHEMES = ["git", "git+ssh", "http", "https", "ftp", "ssh", "ssh", "chroot-1", "svn", "file", "bzr+ssh", "SSH", "g", ""]
-NAMECH = ["a", "b", "/", ",", "=", "%", " ", "\u00e9", "\u20ac", "~", "_", "-", ".", "\u00a0", "r", "e", "f", "s", "4", "1"]
+NAMECH = ["%20", "%25", "%2C", "%3D", "%2F", "%41", "%%", "%zz", "2", "0", "5", "a", "b", "/", ",", "=", "%", " ", "\u00e9", "\u20ac", "~", "_", "-", ".", "\u00a0", "r", "e", "f", "s", "4", "1"]
 REFPRE = [b"refs/heads/", b"refs/tags/", b"refs/", b"", b"refs/heads/refs/", b"refs/remotes/origin/"]
 REFCH = [97, 98, 47, 44, 61, 37, 32, 0xC3, 0xA9, 0xFF, 126, 52, 49, 0, 10]
+REFTOK = [bytes([c]) for c in REFCH] + [b"%20", b"%25", b"%2C", b"%3D", b"%2F", b"%41", b"%%", b"%zz", b"2", b"0", b"5"]
 
 
 def _rand_url(rng):
@@ -269,13 +310,13 @@ def _rand_url(rng):
     if k < 0.45:
         branch = cps("".join(rng.choice(NAMECH) for _ in range(rng.randint(0, 6))))
     elif k < 0.9:
-        ref = rng.choice(REFPRE) + bytes(rng.choice(REFCH) for _ in range(rng.randint(0, 5)))
+        ref = rng.choice(REFPRE) + b"".join(rng.choice(REFTOK) for _ in range(rng.randint(0, 5)))
         if rng.random() < 0.05:
             ref = b"HEAD"
     return {"kind": "url", "loc": cps(loc), "branch": branch, "ref": ref}
 
 
-PARCH = ["a", "%", "4", "1", "F", "f", "g", " ", "=", "\u00a0", "\u2003", "/", "%C3%A9", "%FF", "%2C", "%20", "\u00e9", "\n", "+"]
+PARCH = ["%25", "%2520", "%3D", "%252C", "2", "0", "5", "a", "%", "4", "1", "F", "f", "g", " ", "=", "\u00a0", "\u2003", "/", "%C3%A9", "%FF", "%2C", "%20", "\u00e9", "\n", "+"]
 
 
 def _rand_bzr_url(rng):
@@ -573,6 +614,8 @@ def oracle(inp, obs):
             return None
         if _target_env(loc) != t:
             return None         # relative_url rewrote it: outside the modelled class
+        if _recognised(t) is None or "://" not in t:
+            return None         # not a git location: git_url_to_bzr_url returns it unchanged (documented)
         if isinstance(obs, Err):
             return f"set_parent({loc!r}) raises {obs}"
         got = obs[2]
